@@ -127,7 +127,8 @@ def _dig(obj, depth=0):
         return ('Dataset', _dig(obj.value, depth + 1), _dig(obj.error, depth + 1),
                 tuple((k, _dig(v, depth + 1)) for k, v in obj.bins.items()), obj.name, obj.what)
     if isinstance(obj, TestResult):
-        return ('TestResult', type(obj).__name__, bool(obj), _stats(obj, depth + 1), _dig(obj.test, depth + 1))
+        inner = (_stats(obj, depth + 1), _dig(obj.test, depth + 1))      # digested before its verdict is read
+        return ('TestResult', type(obj).__name__) + inner + (bool(obj),)
     if isinstance(obj, Test):
         return ('Test', type(obj).__name__, tuple(sorted((k, _dig(v, depth + 1)) for k, v in vars(obj).items())))
     if isinstance(obj, dict):
@@ -157,9 +158,12 @@ def _stats(res, depth=0):
     return tuple(out)
 
 
-def snapshot(res):
+def snapshot(res, read_verdict=True):
+    """The verdict is read FIRST, so that a bool() that edits the result shows up in the same snapshot; the baseline
+    of a sequence is taken with read_verdict=False, before anything has looked at the result."""
     from valjean.fingerprint import fingerprint
-    return dict(verdict=bool(res), stats=_stats(res), data=(fingerprint(res.test), _dig(res.test)))
+    verdict = bool(res) if read_verdict else None
+    return dict(verdict=verdict, stats=_stats(res), data=(fingerprint(res.test), _dig(res.test)))
 
 
 def real_keys(res, kind):
@@ -234,8 +238,8 @@ def run_sequence(kind, good, ops):
     dict(op, verb, verdict, stats, data, dupVerdict, dupStats, dupData, keys, exc) with digest NUMBERS
     (0 = value right after the evaluation)."""
     res = build(kind, good)
-    first = snapshot(res)
-    seen = {'stats': [first['stats']], 'data': [first['data']]}
+    untouched = snapshot(res, read_verdict=False)
+    seen = {'stats': [untouched['stats']], 'data': [untouched['data']]}
 
     def number(what, value):
         lst = seen[what]
@@ -245,8 +249,10 @@ def run_sequence(kind, good, ops):
         lst.append(value)
         return len(lst) - 1
 
-    events = [dict(op='evaluate', verb=NOVERB, verdict=first['verdict'], stats=0, data=0, dupVerdict=first['verdict'],
-                   dupStats=0, dupData=0, keys=real_keys(res, kind), exc='')]
+    first = snapshot(res)
+    events = [dict(op='evaluate', verb=NOVERB, verdict=first['verdict'], stats=number('stats', first['stats']),
+                   data=number('data', first['data']), dupVerdict=first['verdict'], dupStats=0, dupData=0,
+                   keys=real_keys(res, kind), exc='')]
     dup = (first['verdict'], 0, 0)
     for op in ops:
         exc = ''
@@ -280,6 +286,8 @@ def judge(kind, good, events):
                     'the %s of the result has verdict %r / statistics #%d / inputs #%d' % (ev['op'], ev['dupVerdict'], ev['dupStats'], ev['dupData']))
         if what:
             opname = ev['op'] + ('' if ev['verb'] == NOVERB else '(verbosity %d)' % ev['verb'])
+            if n == 0:
+                return n, 'C13/%s/%s' % (what[0], kind), 'on the first reading of the verdict right after the evaluation: %s' % what[1]
             return n, 'C13/%s/%s' % (what[0], kind), 'after %s (operation %d of %s): %s' % (
                 opname, n, [e['op'] for e in events[1:]], what[1])
     return None
@@ -301,6 +309,28 @@ def validate_batch(traces, wd, name='trace'):
     with open(oj) as f:
         bad = json.load(f)['bad']
     return res, bad
+
+
+TWIN = 10 ** 6
+
+
+def corrupted_twins(batch):
+    """Copies of recorded traces with one recorded field of one event corrupted."""
+    twins = {}
+    for c in batch:
+        if len(c['events']) < 4 or any(e['stats'] or e['data'] for e in c['events']):
+            continue
+        for k, (field, value) in enumerate([('verdict', None), ('stats', 1), ('data', 1), ('dupVerdict', None), ('op', 'write')]):
+            t = copy.deepcopy(c)
+            t['id'] = TWIN + k
+            ev = t['events'][2]
+            ev[field] = (not ev[field]) if value is None else value
+            if field == 'stats':
+                for later in t['events'][3:]:
+                    later['stats'] = 1           # the statistics stay changed: exactly one illegal step
+            twins[TWIN + k] = t
+        break
+    return twins
 
 
 def replay_case(case):
@@ -524,10 +554,17 @@ def run_c13(ctx):
             ctx.distinct(_hkey(kind, good, ops))
     batch = [to_trace(tid + 1, k, g, ev) for tid, (k, g, _, ev) in enumerate(traces)]
     rejected = set()
+    # binding self-test: corrupted twins of recorded traces ride along in the first batch and must be rejected
+    twins = corrupted_twins(batch)
     chunk = 4000
     for k in range(0, len(batch), chunk):
-        res, bad = validate_batch(batch[k:k + chunk], wd, 'trace%d' % (k // chunk))
+        res, bad = validate_batch(batch[k:k + chunk] + (list(twins.values()) if k == 0 else []), wd, 'trace%d' % (k // chunk))
         ctx.tlc(res, 'ObserveTrace/%d' % (k // chunk))
+        if k == 0:
+            missed = set(twins) - {b[0] for b in bad}
+            if missed or len(twins) < 4:
+                raise tlc.MachineryError('ObserveTrace accepts corrupted traces %s (twins: %s)' % (sorted(missed), sorted(twins)))
+        bad = [b for b in bad if b[0] < TWIN]
         first = {}
         for tid, n, clause in sorted(bad):
             first.setdefault(tid, (n, clause))
